@@ -5,8 +5,7 @@ cd "$(dirname "$0")/.."
 [ -x extract/bin/extract ] || ./setup.sh >/dev/null 2>&1
 tier=${1:-thorough}
 for seed in ${2:-1 2 3}; do
-  for f in checklib/props.d/*.json; do
-    id=$(basename $f .json)
+  for id in $(grep -v "^#" checklib/ready.txt); do
     VERIF_SEED=$seed ./check $id --tier $tier 2>&1 | grep -E "^(VIOLATION|$id )" | sed "s/^/seed=$seed /" | cut -c1-240
   done
 done
